@@ -15,5 +15,7 @@ K == { Num(0), Num(-7), Num(65792), Str("a"), Str(""), Str("a\"b"), Str("a\\b"),
 K2 == {Num(1), Str("x y"), Nm("/n"), List(<<Num(3)>>)}
 U == {F("z", <<>>)} \cup {F("p", <<k>>) : k \in K} \cup {F("q", <<k, j>>) : k \in K, j \in K2} \cup {F("r", <<j, k, j>>) : k \in K2, j \in K2}
      \* one name at two arities: p/1 beside p/2, z/0 beside z/1 (a header entry is a name AND an arity)
-     \cup {F("p", <<k, j>>) : k \in K2, j \in K2} \cup {F("z", <<k>>) : k \in K2}
+     \cup {F("p", <<k, j>>) : k \in K2, j \in K2} \cup {F("z", <<k>>) : k \in K2} \cup {F("p", <<List(<<Num(1)>>)>>)}
+\* facts of one predicate whose atoms have equal hashes (a number hashes to itself, [] and "" and 0 to 0, [1] to 65792)
+HotFacts == {F("p", <<Num(0)>>), F("p", <<List(<<>>)>>), F("p", <<Str("")>>), F("p", <<Num(65792)>>), F("p", <<List(<<Num(1)>>)>>)}
 =============================================================================
